@@ -311,6 +311,8 @@ class Interp:
         if isinstance(test, ast.Call) and dotted(test.func) == "isinstance" and len(test.args) == 2:
             v = self.expr(test.args[0], env, effects, f, depth)
             classes = test.args[1].elts if isinstance(test.args[1], ast.Tuple) else [test.args[1]]
+            if not isinstance(v, TypeV):
+                return ("expr", norm(test, 60))
             quals = []
             for c in classes:
                 r = self.prog.resolve_expr_symbol(f.module, f, c)
@@ -598,7 +600,9 @@ class Interp:
             ci = self.prog.classes[q]
             if q == self.buf_cls:
                 effects.append(("new-buffer",))
-                return BufV(q)
+                b = BufV(q)
+                b.fresh = True
+                return b
             if self.prog.is_subclass(q, "fcp.specs.type.Type"):
                 nm = args[0].const if args and isinstance(args[0], StrV) else None
                 if nm is None and not args:
@@ -682,4 +686,7 @@ class Interp:
         m = self.prog.find_method(ci, name)
         if m is None:
             raise Unsupported("buffer has no method %s" % name)
+        if getattr(recv, "fresh", False) and not args and any(isinstance(n, ast.Return) and n.value is not None for n in walk_local(m.node)):
+            # the content of a buffer created inside a handler: whole bytes (padded to a byte boundary)
+            return BytesV(("expr", "whole bytes of a separately encoded value"), src="separate buffer")
         return self.call_function(m, [recv] + args, {}, effects, depth + 1)
